@@ -1,4 +1,7 @@
-"""Per-property configuration of the check driver (tools/check.py)."""
+"""Per-property configuration of the check driver: one file tools/props/Cxx.py per property, each defining PROP."""
+import glob
+import importlib.util
+import os
 
 COMMON_TRUSTED = [
     "Coq 8.16.1 kernel (coqc, full .vo build; no -vos, no native_compute; vm_compute used for witnesses, finite tables and case evaluation)",
@@ -6,18 +9,9 @@ COMMON_TRUSTED = [
     "harness glue: input generators, canonical printers of observations into Coq terms, name interning (tools/check.py, harness/vx)",
 ]
 
-PROPS = {
-    "C18": dict(
-        coq=["theories/Properties/C18.v"],
-        suites=[dict(bin="obs-bulk")],
-        trusted=[
-            "hand-written model Bulk/Model.v of internal/api/v2/bulk.go + controllers_bulk.go, tied by correspondence: "
-            "real ProcessBulk and real v2 router/bulkHandler vs `process` on the same requests (calls, results, flag, status)",
-            "scripted backend.Ledger (harness/fakeapi) stands for the engine; encoding/json, chi are exercised, not modelled",
-        ],
-        assumptions=[
-            "each element causes at most one backend call, so an arbitrary backend is an arbitrary outcome per element",
-            "JSON decoding of the bulk body and of each element's data is abstracted to decodable/undecodable (both classes generated)",
-        ],
-    ),
-}
+PROPS = {}
+for _f in sorted(glob.glob(os.path.join(os.path.dirname(os.path.abspath(__file__)), "props", "C*.py"))):
+    _spec = importlib.util.spec_from_file_location("prop_" + os.path.basename(_f)[:-3], _f)
+    _m = importlib.util.module_from_spec(_spec)
+    _spec.loader.exec_module(_m)
+    PROPS[os.path.basename(_f)[:-3]] = _m.PROP
